@@ -11,7 +11,7 @@ RULE = ("the extension is BUILT FROM /repo's current Debyer.pyx on every run (cy
         "coincident sites, separations of exactly half a box}, Domain length 2-8 from dk, num_chunks 1..n+3 (also more chunks than sites), OpenMP thread counts "
         "{1,2,3,4,8} set through libgomp; result compared with the Lean model executed on the same float32-rounded inputs and with an independent float64 "
         "Debye sum (delta_ab + C_ab <sum sin(k r)/(k r)>, nearest periodic image, sinc(0) = 1); tolerance = a float32 rounding-error bound computed from the "
-        "terms themselves, never an absolute number; chunk-count, thread-count, repetition and site-order independence. Non-trivial = more than one chunk with "
+        "terms themselves, never an absolute number; chunk-count, thread-count, repetition and site-order independence; (sequence) ONE Debyer object used for a loop of 2-6 calls with selections of different sizes (self and cross): every call compared with the model and the Debye sum of its own arguments. Non-trivial = more than one chunk with "
         "more than one thread; distinct = distinct case")
 EXTRA_TRUSTED = ["cython/gcc/libgomp translate Debyer.pyx faithfully (the build runs on every check)",
                  "the OpenMP runtime itself (which thread runs which chunk, when) is outside the model; it is sampled with 1-8 threads and repetitions",
@@ -174,7 +174,35 @@ def suite_calc(ctx, case):
     o4, _ = run_impl(mod, case, perm=(s1, s2))
     ctx.pred('calc', case, bool(np.all(np.abs(o4 - out) <= 2 * tol)), 'result depends on the order of the sites: %r vs %r' % (out[:2].tolist(), o4[:2].tolist()), key='C18:order-independence')
 
-SUITES = {'chunk': suite_chunk, 'calc': suite_calc}
+def suite_sequence(ctx, case):
+    """ONE Debyer object used for a whole pair loop (omega_11, omega_12, omega_13, omega_22, ...): selections of different sizes,
+    self and cross, one after the other; every call must be the Debye sum of ITS OWN arguments"""
+    mod = need_build(ctx, 'sequence', case)
+    if mod is None: return
+    nb = case['nbins']
+    dom = pyPRISM.Domain(length=nb, dk=case['dk'])
+    set_threads(case['threads'])
+    d = mod.Debyer(domain=dom, nthreads=case['c'])
+    for step, call in enumerate(case['calls']):
+        sub = dict(case, calls=case['calls'][:step + 1])
+        one = dict(call, nbins=nb, dk=case['dk'], c=case['c'], threads=case['threads'])
+        ref, tol, k = reference(one)
+        self_ = call['self']
+        m1 = np.array(call['M1'], dtype=np.int64); m2 = m1 if self_ else np.array(call['M2'], dtype=np.int64)
+        p1 = np.array([np.array(fr['R1'], dtype=float).reshape(-1, 3) for fr in call['frames']])
+        p2 = p1 if self_ else np.array([np.array(fr['R2'], dtype=float).reshape(-1, 3) for fr in call['frames']])
+        box = np.array([fr['L'] for fr in call['frames']], dtype=float)
+        try:
+            out = np.asarray(d.calculate(p1, p2, m1, m2, box, bool(self_)), dtype=float)
+        except Exception as e:
+            ctx.pred('sequence', sub, False, 'call #%d on one Debyer object raised %s: %s' % (step, type(e).__name__, str(e)[:100]), key='C18:raises'); return
+        ctx.corr('sequence', sub, ctx.drv.ask(model_line(one)), fl(out), atols=list(tol), what='call #%d of one Debyer object vs the model' % step)
+        ok = out.shape == ref.shape and bool(np.all(np.abs(out - ref) <= tol))
+        ctx.pred('sequence', sub, ok, 'call #%d on one Debyer object (%s, %d x %d sites) is not the Debye sum of its own arguments: %r vs %r' %
+                 (step, 'self' if self_ else 'cross', len(m1), len(m2), out[:2].tolist(), ref[:2].tolist()), key='C18:object-history')
+        if not ok: return
+
+SUITES = {'chunk': suite_chunk, 'calc': suite_calc, 'sequence': suite_sequence}
 
 # ---------------------------------------------------------------- generators
 def gen_positions(rng, fam, n, L):
@@ -227,6 +255,26 @@ def generate(ctx):
             case = {'n': n, 'c': c}
             ctx.case('chunk', case, n >= 1 and c >= 2, tags=['chunks:' + ('0' if c == 0 else '1' if c == 1 else 'le-n' if c <= n else 'gt-n'), 'n:' + ('0' if n == 0 else 'pos')])
             suite_chunk(ctx, case)
+    for q in range(ctx.n(40, 400)):
+        ctx.check_time()
+        calls = []
+        for _ in range(rng.randint(2, 6)):
+            c1 = gen_calc(rng)
+            calls.append({'self': c1['self'], 'M1': c1['M1'], 'M2': c1['M2'], 'frames': c1['frames'], 'fam': c1['fam']})
+        if rng.random() < 0.5:
+            # the usual pair loop over site types of different sizes: equal second selections, different first selections
+            base = gen_calc(rng); base['self'] = False
+            nB = rng.randint(2, 10); MB = [rng.choice([0, 1]) for _ in range(nB)]
+            calls = []
+            for nA in rng.sample(range(1, 16), 3):
+                MA = [rng.choice([0, 1]) for _ in range(nA)]
+                L = [10.0, 12.0, 9.0]
+                fr = {'L': L, 'R1': gen_positions(rng, 'wrapped', nA, L), 'R2': gen_positions(rng, 'wrapped', nB, L)}
+                calls.append({'self': False, 'M1': MA, 'M2': MB, 'frames': [fr], 'fam': 'wrapped'})
+                calls.append({'self': True, 'M1': MA, 'M2': None, 'frames': [{'L': L, 'R1': fr['R1']}], 'fam': 'wrapped'})
+        case = {'calls': calls, 'nbins': rng.randint(2, 6), 'dk': float('%.5g' % (10 ** rng.uniform(-1.3, 0.5))), 'c': rng.choice([1, 2, 3, 4, 7]), 'threads': rng.choice([1, 2, 4])}
+        ctx.case('sequence', case, True, tags=['sequence:%d' % len(calls), 'chunks:%d' % case['c']])
+        suite_sequence(ctx, case)
     for q in range(ctx.n(150, 2500)):
         ctx.check_time()
         case = gen_calc(rng, big=(ctx.tier != 'quick' and q % 3 == 0))
